@@ -66,6 +66,7 @@ structure Dep where
 structure Script where
   always : Bool := false
   ifcreate : List Nat := []
+  cond : List Nat := []                 -- `if [ -e f ]; then redo-ifchange f; else redo-ifcreate f; fi` for each f
   ifchange : List (List Nat) := []     -- successive `redo-ifchange` commands
   failIfOdd : Option Nat := none        -- `exit 1` if that file holds an odd source version
   reads : List Nat := []                -- files whose bytes go into the output
@@ -96,6 +97,7 @@ structure World where
   progs : Content → Option Script      -- behaviour of a .do file, by content
   rules : Nat → List Nat               -- .do candidates of a target, highest priority first
   trace : List Ev                       -- ghost: most recent first
+  stash : Nat → Option FNode := fun _ => none   -- files the user moved out of the way (same inode, same mtime when moved back)
   oobRev : Bool := false                -- the order in which redo-unlocked is handed its targets is a hash-set order:
                                         -- unspecified; `true` = reversed
 
@@ -314,6 +316,18 @@ def runScript (E : Engine) (_d : Defects) (cx : Ctx) (t : Nat) (sc : Script) (w 
       match E.ifchangeCmd cx' c w with
       | (0, w) => cmds cs (k + 1) w
       | (rv, w) => (rv, w)
+  -- the conditional declarations, in order; `sh -e` stops at the first failure
+  let rec conds : List Nat → World → Status × World
+    | [], w => (0, w)
+    | f :: fs, w =>
+      if existsF w f then
+        match E.ifchangeCmd cx' [f] w with
+        | (0, w) => conds fs w
+        | (rv, w) => (rv, w)
+      else conds fs (addDep w t f false)
+  match conds sc.cond w with
+  | (rvc, w) =>
+  if rvc ≠ 0 then (rvc, none, w) else
   match cmds sc.ifchange 0 w with
   | (rv, w) =>
     if rv ≠ 0 then (rv, none, w) else
@@ -472,6 +486,8 @@ inductive UserOp
   | write (f : Nat) (v : Nat)            -- create or edit a file by hand (new inode, new mtime)
   | remove (f : Nat)
   | chmod (f : Nat)                      -- changes mode only
+  | hide (f : Nat)                       -- `mv f f.away` : the path disappears, the inode is kept
+  | unhide (f : Nat)                     -- `mv f.away f` : same inode, same mtime, same size as before
   | setProg (c : Content) (s : Script)   -- meaning of a .do content (given before it is written)
   | cmd (c : Cmd)
   | crashCmd (ts : List Nat) (t k : Nat)   -- `redo-ifchange ts`, whole tree killed when t's script reaches step k
@@ -533,6 +549,12 @@ def applyOp (d : Defects) (nfiles : Nat) (op : UserOp) (w : World) : Option Resu
   | .remove f => (none, setFile w f none)
   | .chmod f => (none, match w.fs f with
       | some n => setFile w f (some { n with rest := n.rest + 1 })
+      | none => w)
+  | .hide f => (none, match w.fs f with
+      | some n => { setFile w f none with stash := fun x => if x = f then some n else w.stash x }
+      | none => w)
+  | .unhide f => (none, match w.stash f with
+      | some n => { setFile w f (some n) with stash := fun x => if x = f then none else w.stash x }
       | none => w)
   | .setProg c s => (none, { w with progs := fun x => if x = c then some s else w.progs x })
   | .cmd c => let (r, w) := runCmd d nfiles c w; (some r, w)
